@@ -2,6 +2,7 @@ import OVM.Kernel.Step
 import OVM.Base.ListLemmas
 import OVM.Base.Bits
 import OVM.Refine.CacheSwapSpec
+import OVM.Refine.ReachSwap
 /-
   C17 — index swaps are pure relabelings.
   Proved here, for every mesh state (no bound, any contents, including deleted handles):
@@ -10,8 +11,13 @@ import OVM.Refine.CacheSwapSpec
     property-column exchange (edge slot + both halfedge slots side by side) is an involution;
   * without the cache-guided paths (incidence kind disabled) `swap_vertex_indices` twice is the
     identity on the whole record (exact equality), for in-range handles.
-  The cache-guided variants (processed-sets) are tied to these by the correspondence check and
-  are on the refinement ladder (DESIGN.md §6, rung B).
+  The cache-guided variants (processed-sets): middle section (`swap_cache_guided_eq_relabeling`, the `_live` forms).
+  Last section, ON REACHABLE STATES (`Global.GInv`; lemmas in OVM/Refine/ReachSwap.lean, D1's `LogIso` for swaps in
+  OVM/Refine/LogicalDelete.lean): `swap_is_relabeling_on_reachable_states` — for each of the four swaps and valid
+  handles the logical mesh is the original one with the two handles exchanged (`LogIso`, ρ = the transposition), the
+  whole record is the relabeling specification except stale definitions of FLAGGED entities one level up (left
+  untouched when the guiding cache is on: `*_stale`), `swap a a` is the identity, and swapping twice restores the exact
+  state (record equality) with or without pending deletions.
 -/
 namespace OVM.Props.C17
 open OVM OVM.Kernel
@@ -227,5 +233,182 @@ example : tetK.swapFace 0 3 = relabelFaceSpec tetK 0 3 ∧ (relabelFaceSpec tetK
   ⟨((swap_cache_guided_eq_relabeling tetK 0 3 (by decide) wf_tetK).2.2.1) (by decide) (by decide)
       (fun _ => by decide) (fun _ => by unfold NoFlag; decide), by decide⟩
 /-! ### ---- end: swaps and the bottom-up caches ---- -/
+
+/-! ## On reachable states: swaps are pure relabelings
+
+`Global.GInv` (OVM/Refine/Global.lean) holds after every history of valid calls from the empty mesh (Props/C01Reach
+`reach_inv`; it contains `WF` and C01's `oneCell`).  On such a state, for each of the four swaps and every pair of valid
+handles `a b` — adjacent or not, live or flagged, equal or not, every bottom-up configuration, any number of pending
+deletions:
+
+ 1. `*_iso`: the LOGICAL MESH of the result is the original one with the two handles exchanged, every other handle
+    untouched (`Logical.LogIso` with ρ = the transposition `relabelId a b` on the kind and `id` on the others,
+    `transposition`): the live entities, their definitions read through ρ (halfedge / halfface handles side by side:
+    `Logical.half ρ`), the deletion flags, and every property column of every kind incl. both sides of the half-entity
+    columns.  `relabeling_elementary` unfolds `LogIso` into these elementary statements (`Logical.Carried`).
+ 2. `*_record`: the WHOLE RECORD — flag arrays, counters, modes, all three caches as relabelled lists including their
+    order, all property columns, definitions on the same level and below — is that of the relabeling specification
+    (`relabel*Spec`, OVM/Refine/CacheSwapSpec.lean), except the definition array ONE LEVEL UP, which is the
+    specification's at every LIVE index.
+ 3. `*_stale`: the only deviation.  When the guiding cache is on, the stored definition of a FLAGGED entity one level up
+    (deferred deletion pending) is left exactly as it was: it keeps the OLD names of `a` and `b`, where the
+    specification (and the linear-scan variant, `*_scan`) renames inside it.  Such a definition belongs to an entity that
+    no query reports (C01 `deleted_never_reported`) and that `collect_garbage` erases without reading it; it stays in
+    range (`*_inv`: `GInv`, hence `WF`, is kept).  K3's `decide` example in CacheSwapSpec.lean and the one below show it.
+    `*_exact`: with nothing flagged one level up the record IS the specification (`swap_cache_guided_eq_relabeling`).
+ 4. `*_twice`: applying the same swap twice restores the EXACT original state (equality of the whole record) — with
+    or without flagged entities: live entities one level up are renamed twice, flagged ones are touched by neither call.
+    So no weaker "up to `LogIso id`" form is needed.
+ 5. `self`: `swap a a` is the identity on the whole state (every state, no hypothesis). -/
+
+open OVM.Kernel.Global (GInv ginv_step ginv_reachable historyOK_of_B)
+open OVM.Kernel.Logical (LogIso Carried Ren Rem)
+
+/-- `LogIso` in elementary terms: live sets correspond bijectively, definitions and all columns are read through ρ -/
+theorem relabeling_elementary {k k' : Kernel} {ρ : Ren} (h : LogIso k k' ρ) : Carried k k' ρ Rem.none :=
+  Logical.carried_of_logMinus h
+
+/-- the transposition exchanges the two handles and fixes every other one -/
+theorem transposition (a b : Nat) :
+    relabelId a b a = b ∧ relabelId a b b = a ∧ (∀ x, x ≠ a → x ≠ b → relabelId a b x = x) ∧
+    (∀ s, s ≤ 1 → relabelHalf a b (2 * a + s) = 2 * b + s ∧ relabelHalf a b (2 * b + s) = 2 * a + s) ∧
+    (∀ h, h / 2 ≠ a → h / 2 ≠ b → relabelHalf a b h = h) := by
+  refine ⟨by simp [relabelId], ?_, ?_, ?_, fun h h1 h2 => k3_relabelHalf_off h1 h2⟩
+  · unfold relabelId; by_cases h : b = a <;> simp [h]
+  · intro x h1 h2; simp [relabelId, h1, h2]
+  · intro s hs
+    have e1 : (2 * a + s) / 2 = a := by omega
+    have e2 : (2 * b + s) / 2 = b := by omega
+    have e3 : (2 * a + s) % 2 = s := by omega
+    have e4 : (2 * b + s) % 2 = s := by omega
+    unfold relabelHalf
+    rw [e1, e2, e3, e4]
+    by_cases h : b = a <;> simp [h]
+
+/-- **C17 on one state** -/
+structure SwapsRelabel (k : Kernel) : Prop where
+  -- vertices
+  v_iso : ∀ a b, a < k.nV → b < k.nV → LogIso k (k.swapVertex a b) ⟨relabelId a b, id, id, id⟩
+  v_record : ∀ a b, a < k.nV → b < k.nV → a ≠ b →
+    k.swapVertex a b = { relabelVertexSpec k a b with edges := (k.swapVertex a b).edges } ∧
+    (k.swapVertex a b).edges.length = k.edges.length ∧
+    ∀ e, e < k.nE → (k.vBU = true → k.liveE e = true) → (k.swapVertex a b).edgeAt e = relabelEdgeV a b (k.edgeAt e)
+  v_stale : k.vBU = true → ∀ a b, a < k.nV → b < k.nV → a ≠ b → ∀ e, k.liveE e = false →
+    (k.swapVertex a b).edgeAt e = k.edgeAt e
+  v_scan : k.vBU = false → ∀ a b, a < k.nV → b < k.nV → a ≠ b → k.swapVertex a b = relabelVertexSpec k a b
+  v_exact : NoFlag k.eDel → ∀ a b, a < k.nV → b < k.nV → a ≠ b → k.swapVertex a b = relabelVertexSpec k a b
+  v_twice : ∀ a b, a < k.nV → b < k.nV → (k.swapVertex a b).swapVertex a b = k
+  v_inv : ∀ a b, a < k.nV → b < k.nV → GInv (k.swapVertex a b)
+  -- edges
+  e_iso : ∀ a b, a < k.nE → b < k.nE → LogIso k (k.swapEdge a b) ⟨id, relabelId a b, id, id⟩
+  e_record : ∀ a b, a < k.nE → b < k.nE → a ≠ b →
+    k.swapEdge a b = { relabelEdgeSpec k a b with faces := (k.swapEdge a b).faces } ∧
+    (k.swapEdge a b).faces.length = k.faces.length ∧
+    ∀ f, (k.eBU = true → k.liveF f = true) → (k.swapEdge a b).faceAt f = (k.faceAt f).map (relabelHalf a b)
+  e_stale : k.eBU = true → ∀ a b, a < k.nE → b < k.nE → a ≠ b → ∀ f, k.liveF f = false →
+    (k.swapEdge a b).faceAt f = k.faceAt f
+  e_scan : k.eBU = false → ∀ a b, a < k.nE → b < k.nE → a ≠ b → k.swapEdge a b = relabelEdgeSpec k a b
+  e_exact : NoFlag k.fDel → ∀ a b, a < k.nE → b < k.nE → a ≠ b → k.swapEdge a b = relabelEdgeSpec k a b
+  e_twice : ∀ a b, a < k.nE → b < k.nE → (k.swapEdge a b).swapEdge a b = k
+  e_inv : ∀ a b, a < k.nE → b < k.nE → GInv (k.swapEdge a b)
+  -- faces
+  f_iso : ∀ a b, a < k.nF → b < k.nF → LogIso k (k.swapFace a b) ⟨id, id, relabelId a b, id⟩
+  f_record : ∀ a b, a < k.nF → b < k.nF → a ≠ b →
+    k.swapFace a b = { relabelFaceSpec k a b with cells := (k.swapFace a b).cells } ∧
+    (k.swapFace a b).cells.length = k.cells.length ∧
+    ∀ c, (k.fBU = true → k.liveC c = true) → (k.swapFace a b).cellAt c = (k.cellAt c).map (relabelHalf a b)
+  f_stale : k.fBU = true → ∀ a b, a < k.nF → b < k.nF → a ≠ b → ∀ c, k.liveC c = false →
+    (k.swapFace a b).cellAt c = k.cellAt c
+  f_scan : k.fBU = false → ∀ a b, a < k.nF → b < k.nF → a ≠ b → k.swapFace a b = relabelFaceSpec k a b
+  f_exact : NoFlag k.cDel → ∀ a b, a < k.nF → b < k.nF → a ≠ b → k.swapFace a b = relabelFaceSpec k a b
+  f_twice : ∀ a b, a < k.nF → b < k.nF → (k.swapFace a b).swapFace a b = k
+  f_inv : ∀ a b, a < k.nF → b < k.nF → GInv (k.swapFace a b)
+  -- cells (nothing is stored above cells: the record is the specification, always)
+  c_iso : ∀ a b, a < k.nC → b < k.nC → LogIso k (k.swapCell a b) ⟨id, id, id, relabelId a b⟩
+  c_exact : ∀ a b, a ≠ b → k.swapCell a b = relabelCellSpec k a b
+  c_twice : ∀ a b, a < k.nC → b < k.nC → (k.swapCell a b).swapCell a b = k
+  c_inv : ∀ a b, a < k.nC → b < k.nC → GInv (k.swapCell a b)
+  -- swapping a handle with itself
+  self : ∀ a, k.swapVertex a a = k ∧ k.swapEdge a a = k ∧ k.swapFace a a = k ∧ k.swapCell a a = k
+
+theorem swap_is_relabeling (k : Kernel) (hi : GInv k) : SwapsRelabel k := by
+  have hw := hi.wf
+  have h1 := hi.one
+  refine
+    { v_iso := fun a b ha hb => Logical.swapV' ha hb hw
+      v_record := fun a b ha hb hab => ?_
+      v_stale := fun hbu a b ha hb hab e he => Global.swapVertex_edgeAt_flagged hab ha hb hw.cache.v hbu he
+      v_scan := fun hbu a b ha hb hab => swapVertex_eq_spec ha hb hab hw (fun h => by rw [hbu] at h; cases h)
+      v_exact := fun hn a b ha hb hab => swapVertex_eq_spec ha hb hab hw (fun _ => hn)
+      v_twice := fun a b ha hb => Global.swapVertex_twice ha hb hw
+      v_inv := fun a b ha hb => ginv_step k (.swapVertex a b) hi ⟨ha, hb⟩
+      e_iso := fun a b ha hb => Logical.swapE' ha hb hw
+      e_record := fun a b ha hb hab => ?_
+      e_stale := fun hbu a b ha hb hab f hf => Global.swapEdge_faceAt_flagged hab ha hb hw.cache.e hbu hf
+      e_scan := fun hbu a b ha hb hab => swapEdge_eq_spec ha hb hab hw (fun h => by rw [hbu] at h; cases h)
+      e_exact := fun hn a b ha hb hab => swapEdge_eq_spec ha hb hab hw (fun _ => hn)
+      e_twice := fun a b ha hb => Global.swapEdge_twice ha hb hw
+      e_inv := fun a b ha hb => ginv_step k (.swapEdge a b) hi ⟨ha, hb⟩
+      f_iso := fun a b ha hb => Logical.swapF' ha hb hw h1
+      f_record := fun a b ha hb hab => ?_
+      f_stale := fun hbu a b _ _ hab c hc => Global.swapFace_cellAt_flagged hab hw.cache.f hbu hc
+      f_scan := fun hbu a b ha hb hab =>
+        swapFace_eq_spec ha hb hab hw (fun _ => h1) (fun h => by rw [hbu] at h; cases h)
+      f_exact := fun hn a b ha hb hab => swapFace_eq_spec ha hb hab hw (fun _ => h1) (fun _ => hn)
+      f_twice := fun a b ha hb => Global.swapFace_twice ha hb hw h1
+      f_inv := fun a b ha hb => ginv_step k (.swapFace a b) hi ⟨ha, hb⟩
+      c_iso := fun a b ha hb => Logical.swapC' ha hb hw
+      c_exact := fun a b hab => swapCell_eq_spec hab hw
+      c_twice := fun a b ha hb => Global.swapCell_twice ha hb hw h1
+      c_inv := fun a b ha hb => ginv_step k (.swapCell a b) hi ⟨ha, hb⟩
+      self := fun a => ⟨swapVertex_self k a, swapEdge_self k a, swapFace_self k a, swapCell_self k a⟩ }
+  · obtain ⟨e1, e2, _⟩ := swapVertex_eq_spec_live ha hb hab hw
+    exact ⟨e1, e2, fun e he hl => swapVertex_edgeAt_live hab ha hb hw.cache.v he hl⟩
+  · obtain ⟨e1, e2, _⟩ := swapEdge_eq_spec_live ha hb hab hw
+    exact ⟨e1, e2, fun f hf => swapEdge_faceAt_live hab ha hb hw.cache.e hf⟩
+  · obtain ⟨e1, e2, _⟩ := swapFace_eq_spec_live ha hb hab hw (fun _ => h1)
+    exact ⟨e1, e2, fun c hc => swapFace_cellAt_live hab ha hb hw.cache.f (fun _ => h1) hc⟩
+
+/-- **C17 on every reachable state**: after every history of valid calls from the empty mesh (all deletion modes, all
+    bottom-up configurations, pending deferred deletions included) each of the four index swaps is a pure relabeling
+    in the sense of `SwapsRelabel`, `swap a a` is the identity and swapping twice restores the exact state -/
+theorem swap_is_relabeling_on_reachable_states (ops : List Op) (hr : Global.HistoryOK {} ops) :
+    SwapsRelabel (run {} ops) := swap_is_relabeling _ (ginv_reachable ops hr)
+
+/-- a second swap undoes the first also in logical terms: the composite renumbering is the identity -/
+theorem swap_twice_renumbering (a b x : Nat) : relabelId a b (relabelId a b x) = x ∧ relabelHalf a b (relabelHalf a b x) = x :=
+  ⟨relabelId_involutive a b x, relabelHalf_involutive a b x⟩
+
+/-! ### non-vacuity -/
+
+/-- two glued tetrahedra, then (deferred mode) `delete_face(6)` and `delete_edge(0)`: faces 0 1 4 6, both cells and edge 0
+    are flagged and still stored -/
+def swapOps : List Op :=
+  [.addNVertices 6, .addFaceV [0,1,2], .addFaceV [0,3,1], .addFaceV [1,3,2], .addFaceV [0,2,3],
+   .addCell true [0,2,4,6],
+   .addFaceV [0,1,4], .addFaceV [1,2,4], .addFaceV [2,0,4], .addCell true [1,8,10,12],
+   .deleteFace 6, .deleteEdge 0]
+
+set_option maxRecDepth 1000000 in
+/-- the history is valid, so the bundle applies to its end state `k` (flags pending on every level).  There:
+    `swap_edge_indices(0,5)` — edge 0 flagged, edge 5 live — differs from the specification exactly in the stale
+    definition of the flagged face 0 (`[0,2,4]` kept, the specification has `[10,2,4]`), the live face 2 is renamed;
+    `swap_vertex_indices(0,4)` leaves the flagged edge 0 `(0,1)` alone; and the instances of the bundle: twice = `k`
+    (exactly), the logical mesh is relabelled, the stale definition is the old one -/
+example :
+    let k := run {} swapOps
+    SwapsRelabel k ∧ k.fDel = [true, true, false, false, true, false, true] ∧ k.eDel.getD 0 false = true ∧
+    (k.swapEdge 0 5).faceAt 0 = [0, 2, 4] ∧ (relabelEdgeSpec k 0 5).faceAt 0 = [10, 2, 4] ∧
+    (k.swapEdge 0 5).faceAt 2 = [9, 0, 3] ∧ k.faceAt 2 = [9, 10, 3] ∧ k.swapEdge 0 5 ≠ relabelEdgeSpec k 0 5 ∧
+    (k.swapVertex 0 4).edgeAt 0 = (0, 1) ∧ (k.swapVertex 0 4).edgeAt 7 = (0, 4) ∧ k.edgeAt 7 = (4, 0) ∧
+    (k.swapEdge 0 5).swapEdge 0 5 = k ∧ (k.swapFace 4 6).swapFace 4 6 = k ∧ (k.swapVertex 0 4).swapVertex 0 4 = k ∧
+    (k.swapCell 0 1).swapCell 0 1 = k ∧
+    Logical.LogIso k (k.swapEdge 0 5) ⟨id, relabelId 0 5, id, id⟩ ∧ (k.swapEdge 0 5).faceAt 0 = k.faceAt 0 := by
+  intro k
+  have h : SwapsRelabel k := swap_is_relabeling_on_reachable_states swapOps (historyOK_of_B {} swapOps (by decide))
+  exact ⟨h, by decide, by decide, by decide, by decide, by decide, by decide, by decide, by decide, by decide, by decide,
+    h.e_twice 0 5 (by decide) (by decide), h.f_twice 4 6 (by decide) (by decide), h.v_twice 0 4 (by decide) (by decide),
+    h.c_twice 0 1 (by decide) (by decide), h.e_iso 0 5 (by decide) (by decide),
+    h.e_stale (by decide) 0 5 (by decide) (by decide) (by decide) 0 (by decide)⟩
 
 end OVM.Props.C17
